@@ -37,6 +37,7 @@ structure Good (s : St) : Prop where
   decided_one : s.kDecided ≤ 1
   asm_le : s.asm ≤ 1
   asm_eq : s.asm = if s.opens = true ∧ s.nbClosed = false ∧ s.lp.serving = true then 1 else 0
+  waiting_stopping : s.kWait > 0 → s.st = .stopping
   asm_closed : s.opens = true → s.nbClosed = true → (s.lp ≠ .spawned ∧ s.lp ≠ .block ∧ s.sp ≠ .activated)
 
 theorem good_init (o : Bool) : Good (init o) := by
@@ -55,10 +56,10 @@ macro "lc_open" hs:ident : tactic => `(tactic| (
 
 macro "lc_good" : tactic => `(tactic| (
   intro s s' h hs
-  obtain ⟨st, sEnter, sp, kEnter, kDecided, kWait, kClean, lp, pp, abortClosed, nbClosed, wg, writing, res, opens, crashed,
+  obtain ⟨st, sEnter, sp, kEnter, kDecided, kWait, kReady, kClean, lp, pp, abortClosed, nbClosed, wg, writing, res, opens, crashed,
     fuel, flag, rEnter, rSend, rWait, runOver, stopsDone, asm⟩ := s
-  obtain ⟨h1, h2, h3, h4, h5, h6, h7, h8, h9, h10, h11, h12, h13, h14, h15, h16, h17, h18⟩ := h
-  dsimp only at h1 h2 h3 h4 h5 h6 h7 h8 h9 h10 h11 h12 h13 h14 h15 h16 h17 h18
+  obtain ⟨h1, h2, h3, h4, h5, h6, h7, h8, h9, h10, h11, h12, h13, h14, h15, h16, h17, h18, h19⟩ := h
+  dsimp only at h1 h2 h3 h4 h5 h6 h7 h8 h9 h10 h11 h12 h13 h14 h15 h16 h17 h18 h19
   lc_open hs
   all_goals (constructor <;> dsimp only <;> (try simp only [deactivate]) <;> (try split) <;>
     simp_all [LPc.alive, LPc.working, PPc.alive, SPc.inStarting, SPc.owner, SrcState.running, LPc.serving] <;> (try omega) <;> (try grind))))
@@ -163,6 +164,7 @@ structure GoodE (s : St) : Prop where
   serial : stoppers s > 0 → s.sEnter = 0 ∧ s.sp = .idle
   wait_ending : s.kWait > 0 → (s.st = .stopping ∨ s.st = .inactive)
   clean_inactive : s.kClean > 0 → s.st = .inactive
+  ready_inactive : s.kReady > 0 → s.st = .inactive
   done_quiet : s.stopsDone > 0 → s.sEnter = 0 ∧ s.sp = .idle ∧ s.st ≠ .active
 
 theorem goodE_init (o : Bool) : GoodE (init o) := by
@@ -170,11 +172,11 @@ theorem goodE_init (o : Bool) : GoodE (init o) := by
 
 macro "lc_goodE" : tactic => `(tactic| (
   intro s s' h he hok hs
-  obtain ⟨st, sEnter, sp, kEnter, kDecided, kWait, kClean, lp, pp, abortClosed, nbClosed, wg, writing, res, opens, crashed,
+  obtain ⟨st, sEnter, sp, kEnter, kDecided, kWait, kReady, kClean, lp, pp, abortClosed, nbClosed, wg, writing, res, opens, crashed,
     fuel, flag, rEnter, rSend, rWait, runOver, stopsDone, asm⟩ := s
-  obtain ⟨h1, h2, h3, h4, h5, h6, h7, h8, h9, h10, h11, h12, h13, h14, h15, h16, h17, h18⟩ := h
-  obtain ⟨e1, e2, e3, e4⟩ := he
-  dsimp only [stoppers] at h1 h2 h3 h4 h5 h6 h7 h8 h9 h10 h11 h12 h13 h14 h15 h16 h17 h18 e1 e2 e3 e4
+  obtain ⟨h1, h2, h3, h4, h5, h6, h7, h8, h9, h10, h11, h12, h13, h14, h15, h16, h17, h18, h19⟩ := h
+  obtain ⟨e1, e2, e3, e4, e5⟩ := he
+  dsimp only [stoppers] at h1 h2 h3 h4 h5 h6 h7 h8 h9 h10 h11 h12 h13 h14 h15 h16 h17 h18 h19 e1 e2 e3 e4 e5
   simp only [envOK, stoppers] at hok
   lc_open hs
   all_goals try (have hser := e1 (by omega))
@@ -288,7 +290,7 @@ theorem goodW_init (o : Bool) : GoodW (init o) := by simp [GoodW, init, pendingR
 
 macro "lc_goodW" : tactic => `(tactic| (
   intro s s' hg hw hwf hs
-  obtain ⟨st, sEnter, sp, kEnter, kDecided, kWait, kClean, lp, pp, abortClosed, nbClosed, wg, writing, res, opens, crashed,
+  obtain ⟨st, sEnter, sp, kEnter, kDecided, kWait, kReady, kClean, lp, pp, abortClosed, nbClosed, wg, writing, res, opens, crashed,
     fuel, flag, rEnter, rSend, rWait, runOver, stopsDone, asm⟩ := s
   have hex := hg.excl
   clear hg
@@ -345,7 +347,7 @@ theorem goodW_gotRequest (n : Nat) (w : WEff) : ∀ s s' : St, Good s → GoodW 
 
 theorem goodW_reply : ∀ s s' : St, Good s → GoodW s → Ev.wf .reply = true → step s .reply = some s' → GoodW s' := by
   intro s s' _ hw _ hs
-  obtain ⟨st, sEnter, sp, kEnter, kDecided, kWait, kClean, lp, pp, abortClosed, nbClosed, wg, writing, res, opens, crashed,
+  obtain ⟨st, sEnter, sp, kEnter, kDecided, kWait, kReady, kClean, lp, pp, abortClosed, nbClosed, wg, writing, res, opens, crashed,
     fuel, flag, rEnter, rSend, rWait, runOver, stopsDone, asm⟩ := s
   simp only [GoodW] at hw ⊢
   unfold step at hs
